@@ -88,6 +88,8 @@ def export_rel(x, names):
         return [['TableMapGlobals'], [r(x.child), v(x.new_globals)]]
     if c == 'TableFilter':
         return [['TableFilter'], [r(x.child), v(x.pred)]]
+    if c == 'TableOrderBy':
+        return [['TableOrderBy', [[u(f), o] for f, o in x.sort_fields]], [r(x.child)]]
     if c == 'TableLeftJoinRightDistinct':
         return [['TableLeftJoinRightDistinct', u(x.root)], [r(x.left), r(x.right)]]
     if c == 'TableIntervalJoin':
@@ -145,6 +147,8 @@ def unshare(x):
         return ir.TableMapGlobals(u(x.child), u(x.new_globals))
     if c == 'TableFilter':
         return ir.TableFilter(u(x.child), u(x.pred))
+    if c == 'TableOrderBy':
+        return ir.TableOrderBy(u(x.child), x.sort_fields)
     if c == 'TableLeftJoinRightDistinct':
         return ir.TableLeftJoinRightDistinct(u(x.left), u(x.right), x.root)
     if c == 'TableIntervalJoin':
@@ -244,6 +248,12 @@ class Builder:
             return t.annotate_globals(**self.fields(P[2], t))
         if k == 'filter':
             return t.filter(self.expr(P[2], t))
+        if k == 'order_by':
+            args = []
+            for x, o in P[2]:
+                e = x if isinstance(x, str) else self.expr(x, t)
+                args.append(hl.desc(e) if o == 'D' else (hl.asc(e) if o == 'A+' else e))     # 'A': bare name / expression, 'A+': hl.asc(..)
+            return t.order_by(*args)
         if k == 'join':
             return t.join(self.table(P[2]), P[3] if len(P) > 3 else 'inner')
         if k == 'rows':
